@@ -1282,7 +1282,9 @@ where
                         )
                         .await?;
 
-                        if !server.in_transaction() {
+                        // A COPY FROM STDIN is still running after CopyInResponse: the
+                        // transaction is over (and counted) when CopyDone/CopyFail is answered.
+                        if !server.in_transaction() && !server.in_copy_mode() {
                             // Report transaction executed statistics.
                             self.stats.transaction();
                             server
@@ -1291,7 +1293,7 @@ where
 
                             // Release server back to the pool if we are in transaction mode.
                             // If we are in session mode, we keep the server until the client disconnects.
-                            if self.transaction_mode && !server.in_copy_mode() {
+                            if self.transaction_mode {
                                 self.stats.idle();
 
                                 break;
